@@ -405,6 +405,11 @@ func c06Random(run *mon.Run, rng *mon.Rand, length int, sample bool) {
 			}
 			e.L2.NextBlock(1e9)
 			log = append(log, "next block")
+			if rng.Chance(15) {
+				ok := migrateL2(e)
+				log = append(log, fmt.Sprintf("chain exported and restarted from its genesis -> imported=%v", ok))
+				c.invariants(e, m, tail(log, 30))
+			}
 		}
 	}
 	if sample {
